@@ -340,9 +340,9 @@ theorem nearestSpec_step (target : Int) (a : Acc) (xs : List Item) (x : Item)
           obtain ⟨y, hy, h1, h2, h3⟩ := hsome j hj
           exact ⟨y, List.mem_append_left _ hy, h1, h2, h3⟩
 
-theorem nearestSpec_merge (target : Int) (a b : Acc) (xs ys : List Item)
+theorem nearestSpec_mergeOld (target : Int) (a b : Acc) (xs ys : List Item)
     (ha : NearestSpec target a xs) (hb : NearestSpec target b ys) :
-    NearestSpec target (nearestMerge a b) (xs ++ ys) := by
+    NearestSpec target (nearestMergeOld a b) (xs ++ ys) := by
   obtain ⟨c1, w1, i1, d1⟩ := a
   obtain ⟨c2, w2, i2, d2⟩ := b
   obtain ⟨hc1, hw1, hinf1, hlow1, hnone1, hsome1⟩ := ha
@@ -370,7 +370,7 @@ theorem nearestSpec_merge (target : Int) (a b : Acc) (xs ys : List Item)
       obtain ⟨x, hx, _, h0, hdx⟩ := hsome2 j hi
       rw [hd] at hdx
       exact ⟨x, hx, h0, by simpa using hdx⟩
-  unfold nearestMerge
+  unfold nearestMergeOld
   cases d1 with
   | inf =>
     -- left range has no candidate: the right one is taken
@@ -450,10 +450,63 @@ theorem nearestSpec_merge (target : Int) (a b : Acc) (xs ys : List Item)
           obtain ⟨y, hy, h1, h2, h3⟩ := hsome2 j hj
           exact ⟨y, List.mem_append_right _ hy, h1, h2, h3⟩
 
-/-- The reduce folder of a leaf: `nearestMerge nearestInit a` is `a`. -/
-theorem nearestMerge_init_left (a : Acc) : nearestMerge nearestInit a = a := by
+/-- The repaired reduce closure is the old one with the operands exchanged (and the sums
+commuted): it prefers the LEFT operand on ties. -/
+theorem nearestMerge_eq_old_swap (a b : Acc) : nearestMerge a b = nearestMergeOld b a := by
+  unfold nearestMerge nearestMergeOld
+  rw [Nat.add_comm a.count, Int.add_comm a.weight]
+
+/-- `NearestSpec` does not look at the order of the range. -/
+theorem nearestSpec_append_comm (target : Int) (c : Acc) (xs ys : List Item)
+    (h : NearestSpec target c (ys ++ xs)) : NearestSpec target c (xs ++ ys) := by
+  obtain ⟨h1, h2, h3, h4, h5, h6⟩ := h
+  refine ⟨?_, ?_, ?_, ?_, h5, ?_⟩
+  · rw [h1]
+    simp only [List.filter_append, List.length_append]
+    omega
+  · rw [h2]
+    simp only [List.filter_append, List.map_append, List.sum_append]
+    omega
+  · rw [h3]
+    simp only [List.mem_append]
+    constructor
+    · intro h x hx; exact h x hx.symm
+    · intro h x hx; exact h x hx.symm
+  · intro d hd x hx
+    exact h4 d hd x (by simp only [List.mem_append] at hx ⊢; exact hx.symm)
+  · intro j hj
+    obtain ⟨x, hx, r⟩ := h6 j hj
+    exact ⟨x, by simp only [List.mem_append] at hx ⊢; exact hx.symm, r⟩
+
+theorem nearestSpec_merge (target : Int) (a b : Acc) (xs ys : List Item)
+    (ha : NearestSpec target a xs) (hb : NearestSpec target b ys) :
+    NearestSpec target (nearestMerge a b) (xs ++ ys) := by
+  rw [nearestMerge_eq_old_swap]
+  exact nearestSpec_append_comm target _ xs ys (nearestSpec_mergeOld target b a ys xs hb ha)
+
+/-- The reduce folder of a leaf, old closure: `nearestMergeOld nearestInit a` is `a`. -/
+theorem nearestMergeOld_init_left (a : Acc) : nearestMergeOld nearestInit a = a := by
   obtain ⟨c, w, i, d⟩ := a
-  simp [nearestMerge, nearestInit, Dist.lt]
+  simp [nearestMergeOld, nearestInit, Dist.lt]
+
+/-- The reduce folder of a leaf: `nearestMerge nearestInit a` is `a` for every tuple a
+fold can produce (no index without a distance: `(Some(_), INFINITY)` does not occur;
+on it the identity's `None` would be kept). -/
+theorem nearestMerge_init_left (a : Acc) (h : a.dist = .inf → a.idx = none) :
+    nearestMerge nearestInit a = a := by
+  obtain ⟨c, w, i, d⟩ := a
+  cases d with
+  | inf =>
+    have := h rfl
+    simp only at this
+    subst this
+    simp [nearestMerge, nearestInit, Dist.lt]
+  | fin e => simp [nearestMerge, nearestInit, Dist.lt]
+
+/-- The identity on the right is neutral for every tuple. -/
+theorem nearestMerge_init_right (a : Acc) : nearestMerge a nearestInit = a := by
+  obtain ⟨c, w, i, d⟩ := a
+  cases d <;> simp [nearestMerge, nearestInit, Dist.lt]
 
 /-- Along every split tree the tuple summarises the whole range correctly. -/
 theorem parNearest_spec (target : Int) (t : SplitTree) (xs : List Item) :
@@ -461,8 +514,210 @@ theorem parNearest_spec (target : Int) (t : SplitTree) (xs : List Item) :
   unfold parNearest
   exact parFoldR_spec (nearestStep target) nearestInit nearestMerge nearestInit
     (NearestSpec target) (nearestSpec_init target) (nearestSpec_step target)
-    (fun a xs h => by rw [nearestMerge_init_left]; exact h)
+    (fun a xs h => by rw [nearestMerge_init_left a (fun hd => h.idx_none.2 hd)]; exact h)
     (nearestSpec_merge target) t xs
+
+/-- The same for the reduce closure the code had before /repo f4e2819: count, weight and
+distance were right then, too. -/
+theorem parNearestOld_spec (target : Int) (t : SplitTree) (xs : List Item) :
+    NearestSpec target (parNearestOld target t xs) xs := by
+  unfold parNearestOld
+  exact parFoldR_spec (nearestStep target) nearestInit nearestMergeOld nearestInit
+    (NearestSpec target) (nearestSpec_init target) (nearestSpec_step target)
+    (fun a xs h => by rw [nearestMergeOld_init_left]; exact h)
+    (nearestSpec_mergeOld target) t xs
+
+/-! ### The repaired reduce is a homomorphism: the tuple is the sequential fold's
+
+No property of the distance function is used: `dist` may round. -/
+
+/-- Merging on the left commutes with one step of the fold – ties included: both sides
+keep the earlier candidate. -/
+theorem nearestMerge_stepD (dist : Int → Int → Int) (target : Int) (a b : Acc) (x : Item) :
+    nearestMerge a (nearestStepD dist target b x) =
+      nearestStepD dist target (nearestMerge a b) x := by
+  obtain ⟨c1, w1, i1, d1⟩ := a
+  obtain ⟨c2, w2, i2, d2⟩ := b
+  unfold nearestStepD nearestMerge
+  simp only
+  generalize dist x.coord target = e
+  by_cases hneg : e < 0
+  · simp only [hneg, ↓reduceIte]
+    split <;> simp only [Nat.add_assoc, Int.add_assoc]
+  · simp only [hneg, ↓reduceIte]
+    cases d1 with
+    | inf =>
+      cases d2 with
+      | inf => simp [Dist.lt]
+      | fin e2 =>
+        by_cases h : e < e2
+        · simp [Dist.lt, h]
+        · simp [Dist.lt, h]
+    | fin e1 =>
+      cases d2 with
+      | inf =>
+        by_cases h : e < e1
+        · simp [Dist.lt, h]
+        · simp [Dist.lt, h]
+      | fin e2 =>
+        by_cases h2 : e < e2
+        · by_cases h21 : e2 < e1
+          · have h1 : e < e1 := by omega
+            simp [Dist.lt, h2, h21, h1]
+          · by_cases h1 : e < e1
+            · simp [Dist.lt, h2, h21, h1]
+            · simp [Dist.lt, h2, h21, h1]
+        · by_cases h21 : e2 < e1
+          · simp [Dist.lt, h2, h21]
+          · have h1 : ¬ e < e1 := by omega
+            simp [Dist.lt, h2, h21, h1]
+
+theorem nearestMerge_foldlD (dist : Int → Int → Int) (target : Int) (ys : List Item) :
+    ∀ a b : Acc, nearestMerge a (ys.foldl (nearestStepD dist target) b) =
+      ys.foldl (nearestStepD dist target) (nearestMerge a b) := by
+  induction ys with
+  | nil => intro a b; rfl
+  | cons y ys ih =>
+    intro a b
+    simp only [List.foldl_cons]
+    rw [ih, nearestMerge_stepD]
+
+/-- **Along every split tree the repaired `fold(..).reduce(..)` returns the tuple of the
+sequential fold – index included – for every distance function.** -/
+theorem parNearestD_eq_foldl (dist : Int → Int → Int) (target : Int) (t : SplitTree) :
+    ∀ xs : List Item,
+      parNearestD dist target t xs = xs.foldl (nearestStepD dist target) nearestInit := by
+  unfold parNearestD
+  induction t with
+  | leaf =>
+    intro xs
+    simp only [parFoldR]
+    rw [nearestMerge_foldlD]
+    rfl
+  | node k l r ihl ihr =>
+    intro xs
+    simp only [parFoldR]
+    rw [ihl, ihr, nearestMerge_foldlD, nearestMerge_init_right, ← List.foldl_append,
+      List.take_append_drop]
+
+theorem nearestStepD_sub : nearestStepD (fun c t => c - t) = nearestStep := rfl
+
+theorem parNearestD_sub (target : Int) (t : SplitTree) (xs : List Item) :
+    parNearestD (fun c t => c - t) target t xs = parNearest target t xs := rfl
+
+/-- The exact case: `parNearest` along any tree is the sequential fold. -/
+theorem parNearest_eq_foldl (target : Int) (t : SplitTree) (xs : List Item) :
+    parNearest target t xs = xs.foldl (nearestStep target) nearestInit := by
+  rw [← parNearestD_sub, parNearestD_eq_foldl]
+  rfl
+
+/-- What the sequential fold names: the FIRST item, in range order, among those at the
+least non-negative (rounded) distance – every earlier item on the right of the target is
+strictly farther, every later one at least as far. -/
+structure FirstNearest (dist : Int → Int → Int) (target : Int) (a : Acc) (xs : List Item) :
+    Prop where
+  idx_none : a.idx = none ↔ a.dist = .inf
+  inf_iff : a.dist = .inf ↔ ∀ x ∈ xs, dist x.coord target < 0
+  first : ∀ j, a.idx = some j → ∃ pre x post, xs = pre ++ x :: post ∧ x.idx = j ∧
+    0 ≤ dist x.coord target ∧ a.dist = .fin (dist x.coord target) ∧
+    (∀ y ∈ pre, 0 ≤ dist y.coord target → dist x.coord target < dist y.coord target) ∧
+    (∀ y ∈ post, 0 ≤ dist y.coord target → dist x.coord target ≤ dist y.coord target)
+
+theorem FirstNearest.lower {dist : Int → Int → Int} {target : Int} {a : Acc} {xs : List Item}
+    (h : FirstNearest dist target a xs) :
+    ∀ e0, a.dist = .fin e0 → ∀ y ∈ xs, 0 ≤ dist y.coord target → e0 ≤ dist y.coord target := by
+  intro e0 hd y hy hy0
+  cases hi : a.idx with
+  | none => rw [h.idx_none.1 hi] at hd; cases hd
+  | some j =>
+    obtain ⟨pre, z, post, e, _, _, h3, h4, h5⟩ := h.first j hi
+    rw [hd] at h3
+    simp only [Dist.fin.injEq] at h3
+    subst e
+    simp only [List.mem_append, List.mem_cons] at hy
+    rcases hy with hy | rfl | hy
+    · have := h4 y hy hy0; omega
+    · omega
+    · have := h5 y hy hy0; omega
+
+theorem firstNearest_init (dist : Int → Int → Int) (target : Int) :
+    FirstNearest dist target nearestInit [] := by
+  refine ⟨?_, ?_, ?_⟩ <;> simp [nearestInit]
+
+theorem firstNearest_step (dist : Int → Int → Int) (target : Int) (a : Acc) (xs : List Item)
+    (x : Item) (h : FirstNearest dist target a xs) :
+    FirstNearest dist target (nearestStepD dist target a x) (xs ++ [x]) := by
+  have hlow := h.lower
+  obtain ⟨c, w, i, d⟩ := a
+  obtain ⟨hnone, hinf, hfirst⟩ := h
+  simp only at hnone hinf hfirst hlow
+  unfold nearestStepD
+  simp only
+  have hkeep : ∀ j, i = some j → (∀ e0, d = .fin e0 → e0 ≤ dist x.coord target ∨ dist x.coord target < 0) →
+      ∃ pre z post, xs ++ [x] = pre ++ z :: post ∧ z.idx = j ∧
+        0 ≤ dist z.coord target ∧ d = .fin (dist z.coord target) ∧
+        (∀ y ∈ pre, 0 ≤ dist y.coord target → dist z.coord target < dist y.coord target) ∧
+        (∀ y ∈ post, 0 ≤ dist y.coord target → dist z.coord target ≤ dist y.coord target) := by
+    intro j hj hx
+    obtain ⟨pre, z, post, e, h1, h2, h3, h4, h5⟩ := hfirst j hj
+    refine ⟨pre, z, post ++ [x], by simp [e], h1, h2, h3, h4, ?_⟩
+    intro y hy hy0
+    simp only [List.mem_append, List.mem_singleton] at hy
+    rcases hy with hy | rfl
+    · exact h5 y hy hy0
+    · rcases hx _ h3 with h | h <;> omega
+  by_cases hneg : dist x.coord target < 0
+  · simp only [hneg, ↓reduceIte]
+    refine ⟨hnone, ?_, ?_⟩
+    · rw [hinf]
+      simp only [List.mem_append, List.mem_singleton]
+      constructor
+      · rintro h y (hy | rfl)
+        · exact h y hy
+        · exact hneg
+      · intro h y hy
+        exact h y (Or.inl hy)
+    · intro j hj
+      exact hkeep j hj (fun _ _ => Or.inr hneg)
+  · simp only [hneg, ↓reduceIte]
+    have hge : 0 ≤ dist x.coord target := by omega
+    have hnotall : ¬ ∀ y ∈ xs ++ [x], dist y.coord target < 0 := fun h' =>
+      hneg (h' x (by simp))
+    by_cases hlt : Dist.lt (.fin (dist x.coord target)) d = true
+    · simp only [hlt, ↓reduceIte]
+      refine ⟨by simp, ⟨fun h => (by cases h), fun h => absurd h hnotall⟩, ?_⟩
+      intro j hj
+      simp only [Option.some.injEq] at hj
+      refine ⟨xs, x, [], rfl, hj, hge, rfl, ?_, by simp⟩
+      intro y hy hy0
+      cases d with
+      | inf =>
+        have := (hinf.1 rfl) y hy
+        omega
+      | fin e0 =>
+        have := hlow e0 rfl y hy hy0
+        simp only [Dist.lt, decide_eq_true_eq] at hlt
+        omega
+    · simp only [hlt, Bool.false_eq_true, ↓reduceIte]
+      cases d with
+      | inf => simp [Dist.lt] at hlt
+      | fin e0 =>
+        simp only [Dist.lt, decide_eq_true_eq] at hlt
+        refine ⟨hnone, ⟨fun h => (by cases h), fun h => absurd h hnotall⟩, ?_⟩
+        intro j hj
+        exact hkeep j hj (fun e1 he1 => by
+          simp only [Dist.fin.injEq] at he1
+          subst he1
+          exact Or.inl (by omega))
+
+/-- **Which item is the pivot, along every split tree**: the first one in range order at the
+least non-negative (rounded) distance. -/
+theorem parNearestD_first (dist : Int → Int → Int) (target : Int) (t : SplitTree)
+    (xs : List Item) : FirstNearest dist target (parNearestD dist target t xs) xs := by
+  rw [parNearestD_eq_foldl]
+  have := foldl_spec (nearestStepD dist target) (FirstNearest dist target)
+    (firstNearest_step dist target) xs [] nearestInit (firstNearest_init dist target)
+  simpa using this
 
 /-- The specification determines count, weight and distance. -/
 theorem nearestSpec_unique (target : Int) (a b : Acc) (xs : List Item)
